@@ -9,6 +9,7 @@ the expected variation itself and judges the resulting delta.
 Each live driver is re-tuned (range, reference variance re-assigned) and judged again,
 and a step with a zero-variance committee must leave delta at max_delta.
 Committees are also handed over as plain lists / tuples, and half of the drivers have atoms of different masses.
+Committee forces are scaled by 1e-14 .. 1e4 (overall or per coordinate): the relative spread does not depend on it.
 """
 from __future__ import annotations
 
@@ -30,7 +31,7 @@ ASSUMPTIONS = [
     "'large variance' = variance >= 64 x reference (update factor <= 1e-19): delta within 1e-15*(max-min) + 1e-12*min_delta of min_delta; the lower range bound is checked to 4 ulp of min_delta",
     "committee inputs whose variation is 0/0 (all members exactly zero) are outside the domain and not judged",
 ]
-REQUIRED = {"calls_after_retuning": 500, "update_calls": 2000, "anchor_zero": 50, "anchor_reference": 50, "anchor_large": 50, "monotone_pairs": 1000, "fallback_calls": 20, "per_coordinate_calls": 200, "in_step_calls": 10}
+REQUIRED = {"committees_with_forces_below_1e-8": 100, "calls_after_retuning": 500, "update_calls": 2000, "anchor_zero": 50, "anchor_reference": 50, "anchor_large": 50, "monotone_pairs": 1000, "fallback_calls": 20, "per_coordinate_calls": 200, "in_step_calls": 10}
 SHARD_TIMEOUT = {"quick": 600, "thorough": 2400}
 
 EXPECT: dict[int, dict] = {}  # id(driver) -> what the workload fed it
@@ -114,6 +115,9 @@ def make_driver(rng, lo, hi, ref, scheme, fn, natoms):
     return drv, atoms, calc
 
 
+COUNTS: dict = {}
+
+
 def feed(drv, atoms, calc, rng, scheme, v, how):
     """Arrange the committee so the variation equals v (scalar or (N,3) array).  Returns v as the oracle computes it."""
     n = len(atoms)
@@ -125,6 +129,15 @@ def feed(drv, atoms, calc, rng, scheme, v, how):
     if scheme == "forces":
         vv = np.broadcast_to(np.asarray(v, dtype=float), (n, 3))
         x = rng.uniform(0.5, 2.0, (n, 3)) * rng.choice([-1.0, 1.0], (n, 3))
+        # the relative spread of a committee does not depend on how large the forces are: nearly relaxed or symmetric sites
+        # (forces of 1e-8 eV/A and far below) and stiff contacts (1e4) alike, for all coordinates or for some of them
+        sk = rng.random()
+        if sk < 0.4:
+            x = x * float(10 ** rng.uniform(-14, 4))
+        elif sk < 0.6:
+            x = x * 10 ** rng.uniform(-14, 4, (n, 3))
+        if np.abs(x).min() < 1e-8:
+            COUNTS["committees_with_forces_below_1e-8"] = COUNTS.get("committees_with_forces_below_1e-8", 0) + 1
         comm = np.stack([x * (1 + vv), x * (1 - vv)])  # |v| <= 1: std = |x| v, mean|.| = |x|
         # the committee as an array, or as the plain list / tuple of per-member arrays a committee assembled from several
         # ordinary calculators hands over
@@ -275,4 +288,6 @@ def run(spec):
             except Exception as ex:  # noqa: BLE001
                 rec.viol(f"C18/step-raised/{type(ex).__name__}", f"AdaptiveForceBias.step raised {type(ex).__name__}: {ex}", base)
         EXPECT.pop(id(drv), None)
+    for k_, v_ in COUNTS.items():
+        rec.count(k_, v_)
     return rec.out()
